@@ -494,6 +494,16 @@ def stat_case(draw, kind):
         p = draw(polylines(rnd, min_edges=2))
     else:
         p = draw(scaled_trisurf(rnd, max_faces=40))
+        if rnd.random() < 0.7:
+            # unequal face areas: stretch radially about the centroid by a factor 1/3 .. 3 growing along a drawn direction
+            V = np.array(p["V"], dtype=float)
+            c = V.mean(axis=0)
+            R = max(float(np.max(np.linalg.norm(V - c, axis=1))), 1e-300)
+            d = np.array([rnd.gauss(0, 1) for _ in range(3)]); d /= np.linalg.norm(d)
+            W = c + (V - c) * np.exp(math.log(3.0) * ((V - c) @ d) / R)[:, None]
+            if G.min_angle_deg(W.tolist(), p["F"]) >= 3.0:
+                p["V"] = W.tolist()
+                p["tags"] = p["tags"] + ["stretched"]
     p["kind"] = kind
     p["salt"] = rnd.randrange(10 ** 6)       # only varies the seed derived from the case
     return p
@@ -835,7 +845,7 @@ def self_test():
     V = np.array([[0, 0, 0], [1, 0, 0], [0, 1, 0], [1, 1, 1]], dtype=float)
     fr = tri_frames(V, np.array([[0, 1, 2], [1, 3, 2]]))
     ins = insideness(np.array([[0.25, 0.25, 0.0], [0.25, 0.25, 0.1], [-0.1, 0.2, 0.0], [2 / 3, 2 / 3, 1 / 3]]), fr)
-    assert ins[0, 0] > 0.1 and abs(ins[1, 0] + 0.1) < 1e-12 and abs(ins[2, 0] + 0.1) < 1e-12 and ins[3, 1] > 0.1 and ins[3, 0] < 0
+    assert abs(ins[0, 0]) < 1e-15 and abs(ins[1, 0] + 0.1) < 1e-12 and abs(ins[2, 0] + 0.1) < 1e-12 and abs(ins[3, 1]) < 1e-15 and ins[3, 0] < -0.3 and ins[0, 1] < -0.2
     assert np.allclose(fr["N"][0], [0, 0, 1]) and np.allclose(fr["area"][0], 0.5)
     d = seg_dist(np.array([[0.5, 1.0, 0.0], [2.0, 0.0, 0.0]]), V[[0]], V[[1]])
     assert np.allclose(d[:, 0], [1.0, 1.0])
@@ -846,16 +856,17 @@ def self_test():
 BAD_MODES = st.fixed_dictionaries({"d": st.integers(1, 3), "mode": st.sampled_from(["Uniform", "random", "", "regular", "GRID", 0, None])})
 
 SUBCHECKS = [
-    SubCheck("box", box_case(), fn_box, quick=1200, thorough=4000),
+    SubCheck("box", box_case(), fn_box, quick=3000, thorough=8000),
     SubCheck("box_bad_mode", BAD_MODES, fn_box_mode, quick=16, thorough=30),
-    SubCheck("sphere_ball", round_case(), fn_round, quick=1200, thorough=4000),
-    SubCheck("polyline", polyline_case(), fn_polyline, quick=500, thorough=2000),
-    SubCheck("surface", surface_case(), fn_surface, quick=400, thorough=1500),
-    SubCheck("stat_share_polyline", stat_case("polyline"), fn_stat, quick=32, thorough=40),
-    SubCheck("stat_share_surface", stat_case("surface"), fn_stat, quick=32, thorough=40),
+    SubCheck("sphere_ball", round_case(), fn_round, quick=3000, thorough=8000),
+    SubCheck("polyline", polyline_case(), fn_polyline, quick=1500, thorough=4000),
+    SubCheck("surface", surface_case(), fn_surface, quick=1200, thorough=3000),
+    # statistical sub-checks: few cases on purpose (each case has a false-alarm probability < 1e-8)
+    SubCheck("stat_share_polyline", stat_case("polyline"), fn_stat, quick=48, thorough=60),
+    SubCheck("stat_share_surface", stat_case("surface"), fn_stat, quick=48, thorough=60),
     SubCheck("stat_ball_radial", stat_ball_case(), fn_stat_ball, quick=48, thorough=60),
-    SubCheck("bezier_curve", curve_case(), fn_curve, quick=1000, thorough=4000),
-    SubCheck("bezier_patch", patch_case(), fn_patch, quick=700, thorough=3000),
+    SubCheck("bezier_curve", curve_case(), fn_curve, quick=3000, thorough=8000),
+    SubCheck("bezier_patch", patch_case(), fn_patch, quick=2000, thorough=5000),
 ]
 
 MATCHERS = {}
